@@ -78,7 +78,7 @@ async fn task_mock(mock: unimock::Unimock, calls: Vec<CallPlan>) {
 
 type TaskFut = Pin<Box<dyn Future<Output = ()>>>;
 
-#[derive(Clone, Copy, PartialEq, Debug)]
+#[derive(Clone, Copy, PartialEq, Eq, Debug)]
 pub enum TaskEnd {
     Completed,
     Cancelled,
